@@ -23,9 +23,9 @@ fn validate_mic_iff() {
     if let Ok(p) = EncryptedDataPayload::parse(s) {
         let ok = p.validate_mic(&c, fcnt);
         unsafe {
-            assert!(model::MIC_N == 1, "C02: exactly one CMAC computation");
-            assert!(model::ENC_N == 0, "C02: MIC validation must not run the block cipher directly");
-            let m = &model::MICS[0];
+            assert!(model::MIC_N.v == 1, "C02: exactly one CMAC computation");
+            assert!(model::ENC_N.v == 0, "C02: MIC validation must not run the block cipher directly");
+            let m = &model::MICS.v[0];
             assert!(m.key == model::pack(&key.0), "C02: MIC under the given key");
             assert!(m.b0_len == 16, "C02: B0 is one block");
             let dir = if (b[0] >> 5) & 1 == 1 { 1 } else { 0 };
@@ -52,7 +52,7 @@ fn failed_check_leaves_buffer() {
     let (mut b, len) = any_bytes(40);
     let orig = b;
     model::reset(0);
-    unsafe { model::CONSISTENT = false; }
+    unsafe { model::CONSISTENT.v = false; }
     let nwk = DefaultCrypto::new(&any_key());
     let app = DefaultCrypto::new(&any_key());
     let use_app: bool = kani::any();
@@ -71,4 +71,273 @@ fn failed_check_leaves_buffer() {
             kani::cover!(len == 40, "accepted 40-byte frame");
         }
     }
+}
+
+// ---- independent structural decoder of a data frame (LoRaWAN 1.0.x 4.1 - 4.3) -------------------
+/// Some((FOptsLen, has_port)) when `b[..len]` is a well-formed data frame
+fn ref_data_layout(b: &[u8; MAXF], len: usize) -> Option<(usize, bool)> {
+    if len < 12 {
+        return None;
+    }
+    let mtype = b[0] >> 5;
+    if b[0] & 3 != 0 || mtype < 2 || mtype > 5 {
+        return None;
+    }
+    let fol = (b[5] & 0x0f) as usize;
+    // MHDR(1) DevAddr(4) FCtrl(1) FCnt(2) FOpts(fol) [FPort(1) FRMPayload] MIC(4)
+    if 8 + fol + 4 > len {
+        return None;
+    }
+    Some((fol, 8 + fol + 4 < len))
+}
+
+//@h id=data_structure_matches_reference props=C02,C03 tier=quick build=enc cost=30 timeout=900
+//@bounds every byte string of length 0..=255: EncryptedDataPayload::parse succeeds exactly on the well-formed data frames of an independent structural decoder, and every accessor (frame type, DevAddr, FCtrl bits, FCnt, FOpts bytes, FPort, MIC) returns the independent decoder's value; slices compared at one universally quantified index
+//@encodes EncryptedDataPayload::parse, Layout::validate, DataFrameType::from_mhdr, Fhdr::{dev_addr, fctrl, fcnt, f_opts}, FCtrl accessors, f_port, mic
+#[kani::proof]
+#[kani::unwind(6)]
+fn data_structure_matches_reference() {
+    let (b, len) = any_bytes(255);
+    let s = &b[..len];
+    let r = ref_data_layout(&b, len);
+    match EncryptedDataPayload::parse(s) {
+        Err(_) => assert!(r.is_none(), "C02: a well-formed data frame must be decoded"),
+        Ok(p) => {
+            assert!(r.is_some(), "C02: a malformed data frame (length, MHDR, FOptsLen beyond the frame) must be rejected");
+            let (fol, has_port) = r.unwrap();
+            let mtype = b[0] >> 5;
+            assert!(p.is_uplink() == (mtype == 2 || mtype == 4), "C02: direction from MType");
+            assert!(p.is_confirmed() == (mtype == 4 || mtype == 5), "C02: confirmed from MType");
+            assert!(matches!(p.frame_type(), DataFrameType::UnconfirmedUp) == (mtype == 2), "C02: frame type");
+            let h = p.fhdr();
+            assert!(h.dev_addr().value() == u32::from_le_bytes([b[1], b[2], b[3], b[4]]), "C02: DevAddr little-endian");
+            assert!(h.fcnt() == u16::from_le_bytes([b[6], b[7]]), "C02: FCnt little-endian");
+            let c = h.fctrl();
+            assert!(c.raw_value() == b[5] && c.f_opts_len() == fol, "C02: FCtrl / FOptsLen");
+            assert!(c.adr() == (b[5] & 0x80 != 0) && c.ack() == (b[5] & 0x20 != 0), "C02: ADR / ACK bits");
+            let fo = h.f_opts();
+            assert!(fo.len() == fol, "C02: FOpts length");
+            let k: usize = kani::any();
+            if k < fol {
+                assert!(fo[k] == b[8 + k], "C02: FOpts bytes");
+            }
+            assert!(p.f_port() == if has_port { Some(b[8 + fol]) } else { None }, "C02: FPort present exactly when bytes remain between FHDR and MIC");
+            let m = p.mic();
+            assert!(m.0 == [b[len - 4], b[len - 3], b[len - 2], b[len - 1]], "C02: MIC is the last four bytes");
+            kani::cover!(fol == 15 && !has_port, "15 FOpts bytes, no port");
+            kani::cover!(len == 255 && has_port, "255-byte frame with payload");
+        }
+    }
+}
+
+//@h id=decrypt_key_counter_plaintext props=C02,C05 tier=quick build=enc cost=300 timeout=1800
+//@bounds every byte string of length 0..=40, keys present or absent, any 32-bit counter: decrypt_in_place succeeds exactly on well-formed frames whose needed key is present; plaintext = ciphertext xor AES_k(A_i) with k by FPort (0: NwkSKey, else AppSKey), A_i built from the frame's direction, DevAddr and (fcnt high half | wire low half); header, port and MIC bytes untouched; no cipher call for an empty FRMPayload; FrmPayload variant and extent as the independent decoder says
+//@encodes DecryptedDataPayload::decrypt_in_place, frm_payload, securityhelpers::encrypt_frm_data_payload, generate_helper_block
+//@assumes AES is an uninterpreted function (calls logged, outputs arbitrary)
+//@out frames longer than 40 bytes through this path (keystream kernel: keystream_len_* harnesses for every listed length up to 255)
+#[kani::proof]
+#[kani::unwind(42)]
+fn decrypt_key_counter_plaintext() {
+    let (mut b, len) = any_bytes(40);
+    let orig = b;
+    model::reset(0);
+    unsafe { model::CONSISTENT.v = false; }
+    let nwk_key = any_key();
+    let app_key = any_key();
+    let nwk = DefaultCrypto::new(&nwk_key);
+    let app = DefaultCrypto::new(&app_key);
+    let (use_nwk, use_app): (bool, bool) = (kani::any(), kani::any());
+    let fcnt: u32 = kani::any();
+    let lay = ref_data_layout(&orig, len);
+    let r = DecryptedDataPayload::decrypt_in_place(&mut b[..len], if use_nwk { Some(&nwk) } else { None }, if use_app { Some(&app) } else { None }, fcnt);
+    let k: usize = kani::any();
+    kani::assume(k < MAXF);
+    match lay {
+        None => assert!(r.is_err(), "C02: a malformed data frame must be rejected"),
+        Some((fol, has_port)) => {
+            let start = 9 + fol; // first FRMPayload byte when a port is present
+            let plen = if has_port { len - 4 - start } else { 0 };
+            let port = if has_port { orig[8 + fol] } else { 0 };
+            let by_app = has_port && port != 0;
+            let key_there = if by_app { use_app } else { use_nwk };
+            if plen > 0 && !key_there {
+                assert!(matches!(r, Err(Error::MissingKey)), "C02: MissingKey exactly when the key the port selects is absent");
+                drop(r);
+                assert!(b[k] == orig[k], "C02: nothing written when the key is missing");
+            } else {
+                assert!(r.is_ok(), "C02: a well-formed frame with its key present must decrypt");
+                let d = r.unwrap();
+                match d.frm_payload() {
+                    FrmPayload::None => assert!(!has_port, "C02: FrmPayload::None only without FPort"),
+                    FrmPayload::MacCommands(x) => assert!(has_port && port == 0 && x.len() == plen, "C02: MAC commands on port 0, extent"),
+                    FrmPayload::Data(x) => assert!(has_port && port != 0 && x.len() == plen, "C02: application data on port > 0, extent"),
+                }
+                drop(d);
+                let nblocks = (plen + 15) / 16;
+                unsafe {
+                    assert!(model::MIC_N.v == 0, "C02: decrypt_in_place computes no MIC");
+                    assert!(model::ENC_N.v == nblocks, "C02: one AES call per 16 payload bytes, none for an empty payload");
+                    let dir = if (orig[0] >> 5) & 1 == 1 { 1 } else { 0 };
+                    let full = (fcnt & 0xFFFF_0000) | (orig[6] as u32) | ((orig[7] as u32) << 8);
+                    let j: usize = kani::any();
+                    if j < nblocks {
+                        let e = model::ENC.v[j];
+                        let key = if by_app { model::pack(&app_key.0) } else { model::pack(&nwk_key.0) };
+                        assert!(e.key == key && !e.decrypt, "C02: key selected by FPort, AES in encrypt direction");
+                        assert!(e.input == ref_a(dir, [orig[1], orig[2], orig[3], orig[4]], full, (j + 1) as u8), "C02: A_i uses the frame's direction and DevAddr and the counter's high half from the caller, low half from the wire");
+                        if k >= start && k < start + plen && (k - start) / 16 == j {
+                            assert!(b[k] == orig[k] ^ model::byte(e.output, (k - start) % 16), "C02: plaintext = ciphertext xor keystream");
+                        }
+                    }
+                }
+                if k < start || k >= start + plen {
+                    assert!(b[k] == orig[k], "C02: header, port and MIC bytes are not modified by decryption");
+                }
+                kani::cover!(plen == 27 && by_app, "27-byte application payload");
+                kani::cover!(plen > 0 && !by_app, "MAC commands in FRMPayload");
+            }
+        }
+    }
+}
+
+/// R1: frame length and FOptsLen concrete (they steer the keystream loop and the payload offset),
+/// every byte symbolic.  With both symbolic the Ackermann constraints of the consistent crypto
+/// model did not finish in 17 minutes.
+fn decrypt_twice(len: usize, fol: u8) {
+    let (mut b, _) = any_bytes(40);
+    b[5] = (b[5] & 0xF0) | fol;
+    let orig = b;
+    model::reset(0);
+    let nwk = DefaultCrypto::new(&any_key());
+    let app = DefaultCrypto::new(&any_key());
+    let fcnt: u32 = kani::any();
+    let r1 = DecryptedDataPayload::decrypt_in_place(&mut b[..len], Some(&nwk), Some(&app), fcnt).is_ok();
+    let r2 = DecryptedDataPayload::decrypt_in_place(&mut b[..len], Some(&nwk), Some(&app), fcnt).is_ok();
+    assert!(r1 == r2, "C02: structure does not depend on the payload bytes");
+    let k: usize = kani::any();
+    kani::assume(k < MAXF);
+    assert!(b[k] == orig[k], "C02: decrypting twice restores the ciphertext");
+    kani::cover!(r1, "frame decrypted twice");
+}
+//@h id=decrypt_twice_restores_13 props=C02 tier=quick build=enc cost=30 timeout=900
+//@bounds every 13-byte data frame without FOpts (FRMPayload empty, port only) x both keys x any counter: decrypt_in_place twice returns the received bytes (universally quantified index)
+//@encodes DecryptedDataPayload::decrypt_in_place (twice), encrypt_frm_data_payload
+//@assumes AES is an uninterpreted *function*: the same key and block give the same output (Ackermann constraints of the model)
+#[kani::proof]
+#[kani::unwind(42)]
+fn decrypt_twice_restores_13() {
+    decrypt_twice(13, 0);
+}
+//@h id=decrypt_twice_restores_30 props=C02 tier=quick build=enc cost=60 timeout=900
+//@bounds every 30-byte data frame without FOpts (17 payload bytes, two keystream blocks)
+//@assumes AES is an uninterpreted function
+#[kani::proof]
+#[kani::unwind(42)]
+fn decrypt_twice_restores_30() {
+    decrypt_twice(30, 0);
+}
+//@h id=decrypt_twice_restores_40_fopts15 props=C02 tier=quick build=enc cost=60 timeout=900
+//@bounds every 40-byte data frame with 15 FOpts bytes (12 payload bytes)
+//@assumes AES is an uninterpreted function
+#[kani::proof]
+#[kani::unwind(42)]
+fn decrypt_twice_restores_40_fopts15() {
+    decrypt_twice(40, 15);
+}
+
+//@h id=join_accept_decode props=C02 tier=thorough build=enc cost=400 timeout=2400
+//@bounds every byte string of length 0..=40 and every key: check_mic_and_decrypt_in_place accepts exactly the 17/33-byte JoinAccepts (MHDR type 1, major 0) whose MIC = CMAC_key(MHDR | decrypted[..len-4]) where decrypted = AES-encrypt_key of each 16-byte block after the MHDR; every accessor returns the independent decode of the decrypted bytes; CFList by type (0: five frequencies, 1: mask, else none)
+//@encodes DecryptedJoinAcceptPayload::{check_mic_and_decrypt_in_place, decrypt_in_place, validate_mic, join_nonce, net_id, dev_addr, dl_settings, rx_delay, c_f_list}, validate_join_accept_structure, securityhelpers::calculate_mic
+//@assumes AES/CMAC are uninterpreted functions
+#[kani::proof]
+#[kani::unwind(42)]
+fn join_accept_decode() {
+    join_accept_decode_len(kani::any());
+}
+//@h id=join_accept_decode_17 props=C02 tier=quick build=enc cost=30 timeout=900
+//@bounds as join_accept_decode with the length fixed to 17 bytes (no CFList)
+//@assumes AES/CMAC are uninterpreted functions
+#[kani::proof]
+#[kani::unwind(42)]
+fn join_accept_decode_17() {
+    join_accept_decode_len(17);
+}
+//@h id=join_accept_decode_33 props=C02 tier=quick build=enc cost=60 timeout=900
+//@bounds as join_accept_decode with the length fixed to 33 bytes (CFList of every type)
+//@assumes AES/CMAC are uninterpreted functions
+#[kani::proof]
+#[kani::unwind(42)]
+fn join_accept_decode_33() {
+    join_accept_decode_len(33);
+}
+fn join_accept_decode_len(want: usize) {
+    // R1: `want` is a constant in the quick-tier instances, so every loop bound is concrete
+    let (mut b, _) = any_bytes(40);
+    let len = want;
+    kani::assume(len <= 40);
+    let orig = b;
+    let probe: usize = kani::any();
+    model::reset(probe);
+    unsafe { model::CONSISTENT.v = false; }
+    let key = any_key();
+    let c = DefaultCrypto::new(&key);
+    let wf = (len == 17 || len == 33) && orig[0] >> 5 == 1 && orig[0] & 3 == 0;
+    let r = DecryptedJoinAcceptPayload::check_mic_and_decrypt_in_place(&mut b[..len], &c);
+    if !wf {
+        assert!(r.is_err(), "C02: a malformed JoinAccept must be rejected");
+        drop(r);
+        let k: usize = kani::any();
+        kani::assume(k < MAXF);
+        assert!(b[k] == orig[k], "C02: a structurally rejected JoinAccept is not written to");
+        return;
+    }
+    let ok = r.is_ok();
+    // views of the decrypted buffer through the accessors (only on success)
+    if let Ok(d) = &r {
+        let x = d.as_bytes();
+        assert!(d.join_nonce().value() == u32::from_le_bytes([x[1], x[2], x[3], 0]), "C02: JoinNonce");
+        assert!(d.net_id().value() == u32::from_le_bytes([x[4], x[5], x[6], 0]), "C02: NetID");
+        assert!(d.dev_addr().value() == u32::from_le_bytes([x[7], x[8], x[9], x[10]]), "C02: DevAddr");
+        assert!(d.dl_settings().raw_value() == x[11], "C02: DLSettings");
+        assert!(d.rx_delay() == x[12] & 0x0f, "C02: RxDelay");
+        match d.c_f_list() {
+            None => assert!(len == 17 || x[28] > 1, "C02: CFList absent or RFU type"),
+            Some(CfList::DynamicChannel(f)) => {
+                assert!(len == 33 && x[28] == 0, "C02: CFList type 0");
+                let i: usize = kani::any();
+                kani::assume(i < 5);
+                assert!(f[i].hz() == u32::from_le_bytes([x[13 + 3 * i], x[14 + 3 * i], x[15 + 3 * i], 0]) * 100, "C02: CFList frequency i (24-bit little-endian, 100 Hz units)");
+            }
+            Some(CfList::FixedChannel(m)) => {
+                assert!(len == 33 && x[28] == 1, "C02: CFList type 1");
+                let i: usize = kani::any();
+                kani::assume(i < 72);
+                assert!(m.is_enabled(i).unwrap() == (x[13 + i / 8] >> (i % 8) & 1 == 1), "C02: CFList mask bit i");
+            }
+        }
+    }
+    drop(r);
+    unsafe {
+        let nb = (len - 1) / 16;
+        assert!(model::ENC_N.v == nb && model::MIC_N.v == 1, "C02: one AES call per block, one CMAC");
+        let j: usize = kani::any();
+        if j < nb {
+            let e = model::ENC.v[j];
+            assert!(e.key == model::pack(&key.0) && !e.decrypt, "C02: JoinAccept is inverted with AES-encrypt under the given key");
+            assert!(e.input == model::pack(&orig[1 + 16 * j..17 + 16 * j]), "C02: block j of the received frame");
+            let t: usize = kani::any();
+            kani::assume(t < 16);
+            assert!(b[1 + 16 * j + t] == model::byte(e.output, t), "C02: decrypted block j");
+        }
+        assert!(b[0] == orig[0], "C02: MHDR is not encrypted");
+        let m = &model::MICS.v[0];
+        assert!(m.key == model::pack(&key.0) && m.b0_len == 0 && m.len == len - 4, "C02: MIC = CMAC(key, MHDR | decrypted payload without MIC)");
+        if probe < len - 4 {
+            assert!(m.probe == b[probe], "C02: MIC message is the decrypted frame");
+        }
+        let eq = m.out[0] == b[len - 4] && m.out[1] == b[len - 3] && m.out[2] == b[len - 2] && m.out[3] == b[len - 1];
+        assert!(ok == eq, "C02: JoinAccept authentic exactly when the computed MIC equals the decrypted MIC field");
+    }
+    kani::cover!(ok && len == want, "authentic JoinAccept of the chosen length");
+    kani::cover!(!ok, "rejected JoinAccept");
 }
